@@ -55,6 +55,7 @@ def plan(tier, seed):
     for lg in LOGICS:
         sh.append(['groups', lg])
         sh.append(['clone', lg])
+        sh.append(['edits', lg])
         for i in range(8):
             sh.append(['cross', lg, i, 8])
         sh.append(['triples', lg])
@@ -214,6 +215,67 @@ def run_shard(shard, tier, seed, acc):
                                       {'logic': lg, 'f': spaces.fstr(core[i]), 'g': spaces.fstr(core[j]),
                                        'h': spaces.fstr(core[k])})
         return
+    if kind == 'edits':
+        # histories: use a formula as a key, edit a node below the root with the documented mutator
+        # wrap_subformulas, compare with a freshly built formula of the new tree; clone chains
+        Pn = [t for t in P if spaces.size_of(t) >= 2 and t[0] not in ('ap', 't', 'f')][:300]
+        repl = ('ap', 'zz')
+        for t in Pn:
+            o = lib.build(t, L)
+            h0 = hash(o)
+            s0 = {o: 1}
+            # find a non-root operator node and replace its first operand
+            child_i = None
+            for i, x in enumerate(t[1:]):
+                if x[0] not in ('ap', 't', 'f'):
+                    child_i = i
+                    break
+            if child_i is None:
+                continue
+            sub = t[1 + child_i]
+            new_sub = (sub[0], repl) + tuple(sub[2:])
+            node = o._subformula[child_i]
+            cls_arg = [lib.build(repl, L)] + [x for x in node._subformula[1:]]
+            FormulaClass = type(node._subformula[0]).__mro__[0]
+            r = call(lambda: node.__init__(*cls_arg))
+            acc.ev(1, 1)
+            if r[0] != 'ok':
+                continue     # the operator refuses the new operand: nothing to compare
+            t2 = t[:1 + child_i] + (new_sub,) + t[2 + child_i:]
+            rr = call(lib.read, o)
+            if rr[0] != 'ok' or rr[1] != t2:
+                continue     # the edit did not produce the intended tree (operator-specific init)
+            fresh = lib.build(t2, L)
+            case = {'logic': lg, 'f': spaces.fstr(t), 'g': spaces.fstr(t2), 'f_tree': spaces.to_jsonable(t),
+                    'g_tree': spaces.to_jsonable(t2), 'history': 'hash(f); re-initialise a node below the root; '
+                    'compare with a freshly built formula of the new tree'}
+            if not (o == fresh) or not (fresh == o):
+                acc.violation('edited-not-equal-to-fresh', case)
+            elif hash(o) != hash(fresh) or len({o, fresh}) != 1 or fresh not in {o: 1}:
+                acc.violation('equal-but-different-hash-after-edit', case)
+            c = call(o.clone)
+            if c[0] == 'ok' and (lib.read(c[1]) != t2 or hash(c[1]) != hash(fresh)):
+                acc.violation('clone-after-edit-differs', case)
+        # clone chains: clone of a clone, clone / mutate the clone / clone again
+        for t in P[:400]:
+            o = lib.build(t, L)
+            c1 = o.clone()
+            c2 = c1.clone()
+            acc.ev(1, 1 if spaces.size_of(t) >= 1 else 0)
+            case = {'logic': lg, 'f': spaces.fstr(t), 'f_tree': spaces.to_jsonable(t), 'history': 'clone of a clone'}
+            ids1 = set(id(x) for x in nodes_of(c1)) | set(id(x) for x in nodes_of(o))
+            if lib.read(c2) != t or any(id(x) in ids1 for x in nodes_of(c2)):
+                acc.violation('clone-chain-shares-node', case)
+                continue
+            for x in nodes_of(c1):
+                if type(x).__name__ == 'AtomicProposition':
+                    x.name = 'mutated'
+                elif type(x).__name__ == 'Bool':
+                    x._value = not x._value
+            c3 = o.clone()
+            if lib.read(c3) != t or lib.read(o) != t or lib.read(c2) != t or not (c3 == o):
+                acc.violation('clone-after-mutated-clone-differs', case, spaces.fstr(t), str(c3))
+        return
     if kind == 'clone':
         for t in P:
             o = lib.build(t, L)
@@ -269,6 +331,10 @@ def replay(art):
         ids = set(id(x) for x in nodes_of(o))
         bad = lib.read(cl) != t or not (cl == o) or any(id(x) in ids for x in nodes_of(cl))
         return {'violates': bad, 'clone': str(cl), 'original': str(o)}
+    elif 'history' in c:
+        run_shard(['edits', c['logic']], 'quick', 0, acc)
+        hits = [v for v in acc.d['violations'] if v['case'].get('f') == c['f']]
+        return {'violates': bool(hits), 'detail': hits[:1]}
     elif kind in ('set-size', 'eq-not-transitive'):
         run_shard(['groups' if kind == 'set-size' else 'triples', c['logic']], 'quick', 0, acc)
     else:
